@@ -2,7 +2,7 @@
 from analysis.engine import rule, AnchorMissing
 from analysis import cfg
 from analysis.sym import sym, show, show_in, nosite, peel, deep_peel, guards_at, atoms_at, cmp_facts_at, ret_values, \
-    walk, symbolizer, simplify
+    walk, symbolizer, simplify, init_value
 from rules.common import bpe_body, closure_of, find_pop_loop
 
 MB = 'tokenization::BaseTokenizer::merge_bytes'
@@ -358,6 +358,33 @@ def r5(ctx):
                 if tup[0] != 'agg' or len(tup[3]) != 4:
                     ctx.fail(clo, 'ret-shape|' + side, 'closure result is not a 4-tuple', clo.blocks[bb].term.span)
                     continue
+                # the id of the candidate is what the table answered for the concatenation -- nothing in between decides whether the entry counts
+                # (`.filter(|id| id > merge_id)`, "a merge is younger than its parts", drops entries that the canonical procedure applies)
+                idt = tup[3][0]
+                chain = []
+                cur = idt
+                for _ in range(12):
+                    if isinstance(cur, tuple) and cur and cur[0] in ('unwrap', 'ref', 'deref', 'copy', 'move', 'cast') and len(cur) > 1 and isinstance(cur[1], tuple):
+                        cur = cur[1]
+                        continue
+                    if isinstance(cur, tuple) and cur and cur[0] == 'field' and isinstance(cur[1], tuple) and cur[1] and cur[1][0] == 'variant' and cur[1][2] in ('Some', 'Ok', 'Continue'):
+                        cur = cur[1][1]
+                        continue
+                    if isinstance(cur, tuple) and cur and cur[0] in ('var', 'phi'):
+                        nv = init_value(clo, cur)
+                        if nv != cur:
+                            cur = nv
+                            continue
+                    if isinstance(cur, tuple) and cur and cur[0] == 'call' and cur[2] and not cur[1].endswith('HashMap::get'):
+                        chain.append(cur[1].rsplit('::', 1)[-1])
+                        cur = cur[2][0]
+                        continue
+                    break
+                direct = isinstance(cur, tuple) and cur and cur[0] == 'call' and cur[1].endswith('HashMap::get') and \
+                    all(n_ in ('copied', 'cloned', 'branch', 'as_ref', 'map', 'clone', 'deref', 'ok_or', 'into', 'from') for n_ in chain)
+                ctx.require(direct, clo, 'lookup-unfiltered|' + side, '%s candidate: the merge id is the table entry of the concatenation, unconditionally' % side,
+                            '%s candidate: the table entry passes through `%s` before it becomes a candidate: entries of the table are ignored' % (
+                                side, ' / '.join(n_ for n_ in chain if n_ not in ('copied', 'cloned', 'branch')) or sh(idt)[:80]), clo.blocks[bb].term.span)
                 i1, i2 = peel(tup[3][1]), peel(tup[3][2])
                 nbidx = ('field', ('arg', 2, ''), 0)
                 if side == 'prev':
@@ -468,7 +495,10 @@ def r7(ctx):
         vf = [(t, n) for t, n in variant_facts_at(body, p.bb) if any(nosite(x) == nosite(sym(body, m.dest)) for x in walk(t))]
         ctx.require(len(vf) >= 2 and all(n == {'Some'} for _, n in vf), body, 'push-iff-found|' + side,
                     'the %s candidate is pushed under Some(Some(..)) only' % side, None, p.span)
-        inner = [g for g in guards_at(body, p.bb) if g.block in loop.blocks]
+        # the innermost test ABOUT THE CANDIDATE (the inner Some): whatever is tested after it (a "queued already" set, a size limit) stands
+        # between a found candidate and its push
+        md = nosite(sym(body, m.dest))
+        inner = [g for g in guards_at(body, p.bb) if g.block in loop.blocks and g.t[0] == 'discr' and any(nosite(x) == md for x in walk(g.t))]
         if inner:
             last = max(inner, key=lambda g: len(cfg.dominators(body)[g.block]))
             ok2 = all(cfg.must_pass(body, last.target, l, via_blocks=[p.bb]) for l in loop.latches)
